@@ -121,9 +121,11 @@ func Pointcut(id string) {
 // PointHook is installed by crash/gating harnesses.
 var PointHook func(id string)
 
-// TimerState is the scheduler-side model of one controlled timer (see package vtimer).
+// TimerState is the scheduler-side model of one controlled timer (see package vtimer). It
+// follows avalanchego's utils/timer semantics: Stop returns only after the dispatch loop has
+// exited, and the loop cannot exit while the handler is running.
 type TimerState struct {
-	armed, stopped bool
+	armed, stopped, exited bool
 }
 
 func NewTimerState() *TimerState { return &TimerState{} }
@@ -137,10 +139,25 @@ func (t *TimerState) touch(extra uint64) {
 	s.event(s.cur, opTimer, s.obj(unsafe.Pointer(t)), false, extra)
 }
 
-// Arm / Disarm / Stop are visible operations on the timer object.
+// Arm / Disarm are visible operations on the timer object.
 func (t *TimerState) Arm()    { t.touch(1); t.armed = true }
 func (t *TimerState) Disarm() { t.touch(2); t.armed = false }
-func (t *TimerState) Stop()   { t.touch(3); t.stopped = true }
+
+// Stop marks the timer finished and then BLOCKS until the dispatch loop has returned (the real
+// timer waits on the dispatcher's wait group).
+func (t *TimerState) Stop() {
+	t.touch(3)
+	t.stopped = true
+	s := cur()
+	if s == nil || s.inert() {
+		return
+	}
+	s.point(&op{kind: opTimer, enabled: func() bool { return t.exited }})
+	s.event(s.cur, opTimer, s.obj(unsafe.Pointer(t)), false, 5)
+}
+
+// Exited is called by the dispatch loop when it returns.
+func (t *TimerState) Exited() { t.touch(6); t.exited = true }
 
 // WaitFire blocks the dispatch thread until the timer is armed and the scheduler lets it
 // fire (returns true, timer disarmed) or the timer was stopped (returns false).
